@@ -310,6 +310,18 @@ def retried_facts(prog: Program, cr: ClientRoles) -> Tuple[Dict[str, Any], List[
             sel = n
             break
     if sel is None:
+        # recognised-but-wrong form: `per_request or self._client_wide`
+        pnames = [p.arg for p in f.params]
+        for n in cfg.stmt_nodes():
+            if isinstance(n.ast, ast.Assign) and isinstance(n.ast.value, ast.BoolOp) and isinstance(n.ast.value.op, ast.Or):
+                vals = n.ast.value.values
+                if len(vals) == 2 and dotted(vals[0]) in pnames and (dotted(vals[1]) or '').startswith('self.'):
+                    facts['select'] = f'truthy(per-request) ? per-request : client-wide'
+                    problems.append(('STRATEGY-SELECT', 'per-request strategy selected by truthiness', n.line,
+                                     f'`{norm(n.ast)}`: UNSET is falsy, but so is an explicit per-request strategy of None (= "do not retry this '
+                                     f'request"): it falls back to the client-wide strategy and the request is retried; the per-request strategy '
+                                     f'must replace the client-wide one iff it is not UNSET (identity test)'))
+                    return facts, problems
         raise AnalysisError(f'{f.qualname}: strategy selection (conditional expression) not found')
     ife: ast.IfExp = sel.ast.value
     ckd = classify_cond(prog, f, ife.test)
